@@ -179,6 +179,27 @@ def oracle(sc, obs):
         if w.ps.connections:
             v.append({"class": "resource_leak", "key": {"what": "Proxyserver.connections"},
                       "msg": f"{len(w.ps.connections)} handlers still registered"})
+    # ---- nothing of a connection outlives its handler -----------------------------------------------------------
+    # handle_client() returns only after client_disconnected has fired and every transport was torn down; from then
+    # on none of its upstream pipes may be open (or be opened), and no server hook of it may fire.  Judged at the
+    # instant the handler task finished, not at quiescence (where an orphaned connection has long been closed by
+    # its peer).  Attribution of pipes to handlers needs a single client.
+    if len(obs.clients) == 1 and obs.clients[0].handler_done_at is not None:
+        t_done = obs.clients[0].handler_done_at
+        for s in obs.servers:
+            opened = getattr(s, "opened_at", None)
+            if (s.close_time is None or s.close_time > t_done + 1e-3) and not (s.close_time is None and not all_done):
+                v.append({"class": "upstream_outlives_handler", "key": {"opened_after": bool(opened is not None and opened > t_done)},
+                          "msg": f"client handler finished at t={t_done:.6f} but upstream pipe {s.id} to {s.address} "
+                                 f"(opened t={opened}) was closed by the proxy at t={s.close_time}"})
+                break
+        late = [(round(t, 6), name) for t, name, data in w.hooks_fired
+                if name.startswith("server_") and t > t_done + 1e-3]
+        if late:
+            v.append({"class": "server_hook_after_handler_done", "key": {"hook": late[0][1]},
+                      "msg": f"client handler finished at t={t_done:.6f}; server hooks fired afterwards: {late[:4]}"})
+        else:
+            bump("handler_done_checked")
     # (a handler that has not finished by quiescence carries no obligation here: the statement is about what holds
     #  once client_disconnected has fired, not about when that happens)
     # probes
